@@ -742,8 +742,11 @@ reg("AHB2Wishbone(64bit),1 word", "quick", kind="ahb2wb", mw=64, nbytes=8, marks
 reg("AXILite2CSR(32bit)", "quick", kind="axil2csr", mw=32, nbytes=8, strbs=(0b1111,), marks=(1, 2))
 reg("AXILite2CSR(32bit,register)", "quick", kind="axil2csr", mw=32, nbytes=8, strbs=(0b1111,), marks=(1, 2), register=True)
 reg("AXILite2CSR(32bit)+partial_strb", "quick", kind="axil2csr", mw=32, nbytes=8, strbs=(0b1111, 0b0001), marks=(1, 2))
+reg("AXILite2CSR(32bit),no-lane writes", "quick", kind="axil2csr", mw=32, nbytes=8, strbs=(0b1111, 0b0000), marks=(1, 2))
 reg("Wishbone2CSR(32bit,register=True)", "quick", kind="wb2csr", mw=32, nbytes=8, strbs=(0b1111,), marks=(1, 2), register=True)
 reg("Wishbone2CSR(32bit,register=False)", "quick", kind="wb2csr", mw=32, nbytes=8, strbs=(0b1111,), marks=(1, 2), register=False)
+reg("Wishbone2CSR(32bit,register=False),no-lane cycles", "quick", kind="wb2csr", mw=32, nbytes=8, strbs=(0b1111, 0b0000), marks=(1, 2), register=False)
+reg("Wishbone2CSR(32bit,register=True),no-lane cycles", "quick", kind="wb2csr", mw=32, nbytes=8, strbs=(0b1111, 0b0000), marks=(1, 2), register=True)
 reg("Wishbone2CSR(32bit)+partial_strb", "quick", kind="wb2csr", mw=32, nbytes=8, strbs=(0b1111, 0b0001), marks=(1, 2), register=True)
 
 
